@@ -223,6 +223,11 @@ func relName(fn string) string {
 	if i := strings.Index(fn, "/repo/"); i >= 0 {
 		return fn[i+6:]
 	}
+	for _, marker := range []string{"/pkg/", "/plugin/", "/coremain/"} { // a scratch checkout
+		if i := strings.Index(fn, marker); i >= 0 && !strings.Contains(fn, "/pkg/mod/") {
+			return fn[i+1:]
+		}
+	}
 	if i := strings.Index(fn, "/pkg/mod/"); i >= 0 {
 		return fn[i+9:]
 	}
